@@ -337,3 +337,118 @@ Theorem C09_text_align_justifies_iff w av a l rtl col last e :
   effective a l last = AJustify /\ col = true /\ w < av /\ e = av - w.
 Proof. exact (TA.text_align_justifies_iff w av a l rtl col last e). Qed.
 Print Assumptions C09_text_align_justifies_iff.
+
+(* ---- 6. inline_block_width(box, context, containing_block) of weasyprint/layout/inline.py (the function under
+   @handle_min_max_width) REGENERATED from the source on every run (gen/GenInline.v) computes the model ib_width of
+   model/C09InlineBlock.v (CSS 2.1 10.3.9): for every box (width 'auto' or a number, any margins / borders / paddings,
+   any other attributes), containing block and context, the box ends with width = the model's width and everything else
+   as received; nothing is returned or raised.  shrink_to_fit stays an oracle: any function stf of (context, box,
+   available width) that answers a number. *)
+Require WV.model.C09InlineBlock WV.proofs.C09_gen_inline_block.
+Module IB := WV.proofs.C09_gen_inline_block.
+Module IBM := WV.model.C09InlineBlock.
+
+Theorem C09_source_inline_block_width O (HO : Py.ops_ok O) stf (HS : IB.stf_oracle O stf) cf w s rest cbw cbrest :
+  Py.run O GenInline.inline_block_width_body
+    [("box"%string, IB.ib_box (IB.wval w) s rest); ("context"%string, Py.VObj cf);
+     ("containing_block"%string, IB.cb_box cbw cbrest)]
+    (fun rho res =>
+       res = None /\
+       Py.lookup "box" rho =
+       IB.ib_box (Py.VNum (IBM.ib_width (stf (Py.VObj cf) (IB.ib_box (IB.wval w) s rest)) w cbw s)) s rest /\
+       Py.lookup "context" rho = Py.VObj cf /\ Py.lookup "containing_block" rho = IB.cb_box cbw cbrest)
+    (fun _ => False).
+Proof. exact (IB.gen_inline_block_width O HO stf HS cf w s rest cbw cbrest). Qed.
+Print Assumptions C09_source_inline_block_width.
+
+(* "If 'width' is 'auto', the used value is the shrink-to-fit width": what the source stores is the oracle's answer
+   for the width of the containing block minus the margins, border widths and paddings of the box *)
+Theorem C09_source_inline_block_auto_is_shrink_to_fit O (HO : Py.ops_ok O) stf (HS : IB.stf_oracle O stf)
+        cf s rest cbw cbrest :
+  Py.run O GenInline.inline_block_width_body
+    [("box"%string, IB.ib_box (Py.VStr "auto") s rest); ("context"%string, Py.VObj cf);
+     ("containing_block"%string, IB.cb_box cbw cbrest)]
+    (fun rho res =>
+       PyTac.fieldv (Py.lookup "box" rho) "width" =
+       Py.VNum (stf (Py.VObj cf) (IB.ib_box (Py.VStr "auto") s rest)
+                    (cbw - (IBM.ml s + IBM.mr s + IBM.bl s + IBM.br s + IBM.pl s + IBM.pr s))))
+    (fun _ => False).
+Proof. exact (IB.gen_inline_block_auto_is_shrink_to_fit O HO stf HS cf s rest cbw cbrest). Qed.
+Print Assumptions C09_source_inline_block_auto_is_shrink_to_fit.
+
+(* a width that is not auto: the box is left exactly as received *)
+Theorem C09_source_inline_block_given_width_kept O (HO : Py.ops_ok O) stf (HS : IB.stf_oracle O stf)
+        cf x s rest cbw cbrest :
+  Py.run O GenInline.inline_block_width_body
+    [("box"%string, IB.ib_box (Py.VNum x) s rest); ("context"%string, Py.VObj cf);
+     ("containing_block"%string, IB.cb_box cbw cbrest)]
+    (fun rho res => Py.lookup "box" rho = IB.ib_box (Py.VNum x) s rest)
+    (fun _ => False).
+Proof. exact (IB.gen_inline_block_given_width_kept O HO stf HS cf x s rest cbw cbrest). Qed.
+Print Assumptions C09_source_inline_block_given_width_kept.
+
+(* with shrink_to_fit = min(max(preferred minimum, available), preferred) (CSS 2.1 10.3.5, layout/preferred.py): the
+   auto width lies between the preferred minimum and the preferred width, the margin box fits in the containing block
+   whenever the preferred minimum does, an overflowing box is as narrow as its content allows, and the width is the
+   preferred width when that fits *)
+Theorem C09_source_inline_block_auto_fits O (HO : Py.ops_ok O) pmin pref
+        (HS : IB.stf_oracle O (fun _ _ => IBM.shrink pmin pref)) cf s rest cbw cbrest :
+  pmin <= pref ->
+  Py.run O GenInline.inline_block_width_body
+    [("box"%string, IB.ib_box (Py.VStr "auto") s rest); ("context"%string, Py.VObj cf);
+     ("containing_block"%string, IB.cb_box cbw cbrest)]
+    (fun rho res =>
+       exists wd, PyTac.fieldv (Py.lookup "box" rho) "width" = Py.VNum wd /\
+                  pmin <= wd <= pref /\
+                  (pmin <= cbw - IBM.hsum s -> wd + IBM.hsum s <= cbw) /\
+                  (cbw < wd + IBM.hsum s -> wd == pmin) /\
+                  (pref <= cbw - IBM.hsum s -> wd == pref))
+    (fun _ => False).
+Proof. exact (IB.gen_inline_block_auto_fits O HO pmin pref HS cf s rest cbw cbrest). Qed.
+Print Assumptions C09_source_inline_block_auto_fits.
+
+(* ---- 7. justify_line(context, line, extra_width) of weasyprint/layout/inline.py REGENERATED from the source on every
+   run (gen/GenInline.v).  count_expandable_spaces and add_word_spacing are oracles.  Whatever functions cnt / aws of
+   their arguments they are: add_word_spacing is called exactly when the count is not 0, with (context, the received
+   line, extra_width / count, 0) and the line is left as it leaves it; otherwise the line is the received one. *)
+Require WV.proofs.C09_gen_justify.
+Module JL := WV.proofs.C09_gen_justify.
+
+Theorem C09_source_justify_line O (HO : Py.ops_ok O) cf lf e cnt ret aws :
+  Py.run (Py.with_calls O (JL.justify_oracle cnt ret aws)) GenInline.justify_line_body
+    [("context"%string, Py.VObj cf); ("line"%string, Py.VObj lf); ("extra_width"%string, Py.VNum e)]
+    (fun rho res =>
+       res = None /\
+       if Qeq_bool (cnt [Py.VObj lf]) 0
+       then Py.lookup "line" rho = Py.VObj lf /\ Py.lookup "%call" rho = Py.VErr "unbound:%call"
+       else Py.lookup "line" rho = aws [Py.VObj cf; Py.VObj lf; Py.VNum (e / cnt [Py.VObj lf]); Py.VNum 0] /\
+            Py.lookup "%call" rho = ret)
+    (fun _ => False).
+Proof. exact (JL.gen_justify_line O HO cf lf e cnt ret aws). Qed.
+Print Assumptions C09_source_justify_line.
+
+(* with the callees as the model has them (count_spaces, add_word_spacing of model/C09Align.v, through ANY encoding enc
+   of the model's inline boxes as objects with a decoding dec): the source leaves the line as the model's justify_line *)
+Theorem C09_source_justify_line_is_model enc dec (dec_enc : forall b, dec (Py.VObj (enc b)) = b)
+        O (HO : Py.ops_ok O) cf b e ret :
+  Py.run (Py.with_calls O (JL.justify_oracle (JL.cnt_model dec) ret (JL.aws_model enc dec))) GenInline.justify_line_body
+    [("context"%string, Py.VObj cf); ("line"%string, Py.VObj (enc b)); ("extra_width"%string, Py.VNum e)]
+    (fun rho res => res = None /\ Py.lookup "line" rho = Py.VObj (enc (justify_line b e)))
+    (fun _ => False).
+Proof. exact (JL.gen_justify_line_model enc dec dec_enc O HO cf b e ret). Qed.
+Print Assumptions C09_source_justify_line_is_model.
+
+(* justification distributes exactly the extra width over the expandable spaces: the line the source leaves is wider
+   by extra_width as soon as it holds an expandable space, it is the received line when it holds none, and its boxes
+   stay nested in one another *)
+Theorem C09_source_justify_line_fills enc dec (dec_enc : forall b, dec (Py.VObj (enc b)) = b)
+        O (HO : Py.ops_ok O) cf b e ret :
+  Py.run (Py.with_calls O (JL.justify_oracle (JL.cnt_model dec) ret (JL.aws_model enc dec))) GenInline.justify_line_body
+    [("context"%string, Py.VObj cf); ("line"%string, Py.VObj (enc b)); ("extra_width"%string, Py.VNum e)]
+    (fun rho res =>
+       ((0 < count_spaces b)%nat -> box_w (dec (Py.lookup "line" rho)) == box_w b + e) /\
+       (count_spaces b = 0%nat -> Py.lookup "line" rho = Py.VObj (enc b)) /\
+       (well_nested b -> well_nested (dec (Py.lookup "line" rho))))
+    (fun _ => False).
+Proof. exact (JL.gen_justify_line_fills enc dec dec_enc O HO cf b e ret). Qed.
+Print Assumptions C09_source_justify_line_fills.
